@@ -418,6 +418,15 @@ def build(cfg, chooser):
                 return v
             if kind == "call":
                 return draw
+            if kind == "cycle":
+                def cyc():
+                    k = 0
+                    while True:
+                        v = menu[k % len(menu)]
+                        k += 1
+                        led.draws[name].append((env.now, v))
+                        yield v
+                return cyc()
 
             def gen():
                 while True:
